@@ -69,6 +69,10 @@ def observe(case):
             t1 = api.parse(job["src"], isfree=job["free"], isstrict=False, analyze=job["analyze"], ignore_comments=True)
             s1 = body(str(t1))
             r.update(ok=True, text=s1, nest=nest(t1, api))
+            # printing is a pure function of the tree: the statements printed one by one, and the whole tree printed once more
+            for st_, d_ in api.walk(t1):
+                str(st_)
+            r["text_again"] = body(str(t1))
             d1 = dedup(s1)
             if d1 != s1:
                 # do the laws hold once the repeated terminator lines are taken out?  (decides whether a violation is the known finding)
@@ -232,6 +236,9 @@ def run(prop, tier=None, replay=None):
                 ev.append({"e": "print", "tree": t2, "text": D("src:" + x["text2"]), "tci": 0})
             else:
                 ev.append({"e": "parse", "src": s1, "cfg": cfg, "res": "esc", "tree": 0, "st": 0, "sci": 0, "line": 0, "q": 0})
+            if x.get("text_again") is not None and x["text_again"] != x["text"]:
+                chk.violation({"clause": "second-print-differs"}, "C19: printing the same tree twice gives different text (%s, analyze=%s)\n--- first\n%s--- second\n%s" % (
+                    job["name"], job["analyze"], x["text"][:400], x["text_again"][:400]), {"prog": c["prog"], "clause": "second-print-differs"})
             dk = dropped_keywords(c["prog"]["src"], x["text"])
             x["dropped"] = dk
             ev.append({"e": "toks", "text": s0, "tk": D(repr(norm_tokens(c["prog"]["src"])) + "|dropped:[]")})
